@@ -27,15 +27,57 @@ def chanIdx (s : St) : Nat := if s.cfg.varMap then s.idx else s.idx - 37
 
 /-! ### complete tables of the bit-level code -/
 
-theorem next_table : ∀ m, m < 8 → m ≠ 0 → ∀ i, i < 3 → bitSet m i = true →
-    match nextIdxVar i m, firstIdx m with
-    | some j, some f => j < 3 ∧ bitSet m j = true ∧ some j = succIdx m i ∧ (i < j → j ≠ f) ∧ (j ≤ i → j = f)
-    | _, _ => False := by decide
+theorem next_eq_succ : ∀ m, m < 8 → m ≠ 0 → ∀ i, i < 3 → bitSet m i = true →
+    nextIdxVar i m = succIdx m i := by decide
 
-theorem first_table : ∀ m, m < 8 → m ≠ 0 →
-    match firstIdx m with
-    | some f => f < 3 ∧ bitSet m f = true ∧ (enabledIdxs m).head? = some f
-    | none => False := by decide
+theorem first_eq_head : ∀ m, m < 8 → m ≠ 0 → firstIdx m = (enabledIdxs m).head? := by decide
+
+/-- the table entry for `succIdx m i` as one Boolean (keeps instance synthesis for `decide` small) -/
+def succOk (m i : Nat) : Bool :=
+  match succIdx m i with
+  | some j => decide (j < 3) && bitSet m j
+      && (!decide (i < j) || decide (some j ≠ (enabledIdxs m).head?))
+      && (!decide (j ≤ i) || decide (some j = (enabledIdxs m).head?))
+  | none => false
+
+theorem succOk_table : ∀ m, m < 8 → m ≠ 0 → ∀ i, i < 3 → bitSet m i = true → succOk m i = true := by
+  decide
+
+theorem succ_table (m : Nat) (h8 : m < 8) (h0 : m ≠ 0) (i : Nat) (hi : i < 3) (hb : bitSet m i = true) :
+    ∃ j, j < 3 ∧ succIdx m i = some j ∧ bitSet m j = true
+      ∧ (i < j → some j ≠ (enabledIdxs m).head?) ∧ (j ≤ i → some j = (enabledIdxs m).head?) := by
+  have h := succOk_table m h8 h0 i hi hb
+  unfold succOk at h
+  cases hs : succIdx m i with
+  | none => simp [hs] at h
+  | some j =>
+    simp only [hs, Bool.and_eq_true, Bool.or_eq_true, Bool.not_eq_true', decide_eq_true_eq,
+      decide_eq_false_iff_not] at h
+    obtain ⟨⟨⟨h1, h2⟩, h3⟩, h4⟩ := h
+    refine ⟨j, h1, rfl, h2, ?_, ?_⟩
+    · intro hij; rcases h3 with h3 | h3
+      · exact absurd hij h3
+      · exact h3
+    · intro hji; rcases h4 with h4 | h4
+      · exact absurd hji h4
+      · exact h4
+
+theorem head_table : ∀ m, m < 8 → m ≠ 0 →
+    ∃ f, f < 3 ∧ (enabledIdxs m).head? = some f ∧ bitSet m f = true := by decide
+
+theorem first_table (m : Nat) (h8 : m < 8) (h0 : m ≠ 0) :
+    ∃ f, f < 3 ∧ firstIdx m = some f ∧ bitSet m f = true ∧ (enabledIdxs m).head? = some f := by
+  obtain ⟨f, hf3, hh, hb⟩ := head_table m h8 h0
+  exact ⟨f, hf3, by rw [first_eq_head m h8 h0, hh], hb, hh⟩
+
+theorem next_table (m : Nat) (h8 : m < 8) (h0 : m ≠ 0) (i : Nat) (hi : i < 3) (hb : bitSet m i = true) :
+    ∃ j, j < 3 ∧ ∃ f, f < 3 ∧ nextIdxVar i m = some j ∧ firstIdx m = some f ∧ bitSet m j = true
+      ∧ some j = succIdx m i ∧ (i < j → j ≠ f) ∧ (j ≤ i → j = f) := by
+  obtain ⟨j, hj3, hs, hjb, hup, hwrap⟩ := succ_table m h8 h0 i hi hb
+  obtain ⟨f, hf3, hff, _, hh⟩ := first_table m h8 h0
+  refine ⟨j, hj3, f, hf3, by rw [next_eq_succ m h8 h0 i hi hb, hs], hff, hjb, hs.symm, ?_, ?_⟩
+  · intro h e; subst e; exact hup h hh.symm
+  · intro h; have := hwrap h; rw [hh] at this; exact Option.some.inj this
 
 theorem add_table : ∀ m, m < 8 → ∀ c, c < 3 →
     (m ||| (1 <<< c)) < 8 ∧ (m ||| (1 <<< c)) ≠ 0 ∧ bitSet (m ||| (1 <<< c)) c = true
@@ -60,9 +102,8 @@ def walk (m : Nat) : Nat → Nat → List Nat
       | none => []
 
 theorem cycle_table : ∀ m, m < 8 → m ≠ 0 →
-    match (enabledIdxs m).head? with
-    | some f => walk m (enabledIdxs m).length f = (enabledIdxs m).tail ++ [f]
-    | none => False := by decide
+    ∃ f, f < 3 ∧ (enabledIdxs m).head? = some f
+      ∧ walk m (enabledIdxs m).length f = (enabledIdxs m).tail ++ [f] := by decide
 
 /-! ### the invariant -/
 
@@ -136,20 +177,25 @@ theorem startGate_same (s : St) : sameChan s (startGate s).1 := by
   · exact (h1.trans h2).trans (beginEvents_same _)
   · exact h1.trans h2
 
+theorem chooseData_same (s : St) : sameChan s (chooseData s).1 := by
+  unfold chooseData
+  split
+  · exact sameChan.trans ⟨rfl, rfl, rfl, rfl, rfl⟩ (fillSel_same _)
+  · split
+    · exact sameChan.trans ⟨rfl, rfl, rfl, rfl, rfl⟩ (fillSel_same _)
+    · exact ⟨rfl, rfl, rfl, rfl, rfl⟩
+
 theorem timeoutGate_same (s : St) : sameChan s (timeoutGate s).1 := by
   unfold timeoutGate
   simp only
-  split <;> split <;> (try split) <;>
-    first
-    | exact sameChan.trans (sameChan.trans ⟨rfl, rfl, rfl, rfl, rfl⟩ (fillSel_same _)) (continuedEvents_same _)
-    | exact sameChan.trans ⟨rfl, rfl, rfl, rfl, rfl⟩ (fillSel_same _)
-    | exact sameChan.trans ⟨rfl, rfl, rfl, rfl, rfl⟩ (continuedEvents_same _)
-    | exact ⟨rfl, rfl, rfl, rfl, rfl⟩
+  split
+  · exact (chooseData_same s).trans (continuedEvents_same _)
+  · exact chooseData_same s
 
 theorem handleStart_same (s : St) : sameChan s (handleStart s).1 := by
   unfold handleStart
-  have := startGate_same s
-  split <;> split <;> simp_all
+  simp only
+  split <;> exact startGate_same s
 
 /-- what `next_channel(); next_adv_event()` does, for both channel map options: the channel index
     moves to the cyclic successor, the delay is 0 within an event and interval + 0..10 ms at the
@@ -169,63 +215,59 @@ theorem nextChannelAndDelay_spec (s : St) (hi : Inv s) (hm : effMap s ≠ 0) :
   · simp only [effMap, hv, if_true] at hm hlt hon
     simp only [chanIdx, hv, if_true] at hon
     simp only [hv, if_true] at hidx
-    have ht := next_table s.map hlt hm s.idx hidx hon
+    obtain ⟨j, hj3, f, _, hn, hf, hjon, hsucc, hup, hwrap⟩ := next_table s.map hlt hm s.idx hidx hon
     unfold nextChannelAndDelay nextAdvEvent firstSelected
-    simp only [hv, if_true]
-    cases hn : nextIdxVar s.idx s.map with
-    | none => simp [hn] at ht
-    | some j =>
-      cases hf : firstIdx s.map with
-      | none => simp [hn, hf] at ht
-      | some f =>
-        simp only [hn, hf] at ht
-        obtain ⟨hj3, hjon, hsucc, hup, hwrap⟩ := ht
-        simp only [Option.bind_some, Option.map_some]
-        by_cases hjf : j = f
-        · subst hjf
-          refine ⟨_, _, by simp only [beq_self_eq_true, Bool.not_true, Bool.false_eq_true, if_false], ?_, ?_, ?_, ?_, ?_, ?_, ?_, ?_⟩
-          · refine ⟨by simp [effMap, hv, hlt], by simp [hv, hj3], ?_, ?_, hi.ivl⟩
-            · intro _; simp [effMap, chanIdx, hv, hjon]
-            · show (s.pert + 7) % 11 ≤ 10; omega
-          · simp [effMap, hv]
-          · simp [currentInterval]
-          · simp
-          · simp [chanIdx, effMap, hv, hsucc]
-          · simp [currentChannel, chanIdx, hv]
-          · intro hlt'; simp only [chanIdx, hv, if_true] at hlt'; exact absurd rfl (hup hlt')
-          · intro _; exact ⟨(s.pert + 7) % 11, by omega, by simp [currentInterval]⟩
-        · have hne : (j == f) = false := by simp [hjf]
-          refine ⟨_, _, by simp only [hne, Bool.not_false, if_true], ?_, ?_, ?_, ?_, ?_, ?_, ?_, ?_⟩
-          · refine ⟨by simp [effMap, hv, hlt], by simp [hv, hj3], ?_, hi.pert, hi.ivl⟩
-            intro _; simp [effMap, chanIdx, hv, hjon]
-          · simp [effMap, hv]
-          · simp [currentInterval]
-          · simp
-          · simp [chanIdx, effMap, hv, hsucc]
-          · simp [currentChannel, chanIdx, hv]
-          · intro _; rfl
-          · intro hle; simp only [chanIdx, hv, if_true] at hle; exact absurd (hwrap hle) hjf
+    simp only [hv, if_true, hn, hf, Option.bind_some, Option.map_some]
+    by_cases hjf : j = f
+    · subst hjf
+      simp only [beq_self_eq_true, Bool.not_true, Bool.false_eq_true, if_false]
+      refine ⟨_, _, rfl, ?_, ?_, ?_, ?_, ?_, ?_, ?_, ?_⟩
+      · refine ⟨by simp [effMap, hv, hlt], by simp [hv, hj3], ?_, ?_, hi.ivl⟩
+        · intro _; simp [effMap, chanIdx, hv, hjon]
+        · show (s.pert + 7) % 11 ≤ 10; omega
+      · simp [effMap, hv]
+      · simp [currentInterval]
+      · simp
+      · simp [chanIdx, effMap, hv, hsucc]
+      · simp [currentChannel, chanIdx, hv]
+      · intro hlt'; simp only [chanIdx, hv, if_true] at hlt'; exact absurd rfl (hup hlt')
+      · intro _; exact ⟨(s.pert + 7) % 11, by omega, by simp [currentInterval]⟩
+    · have hne : (j == f) = false := by simp [hjf]
+      simp only [hne, Bool.not_false, if_true]
+      refine ⟨_, _, rfl, ?_, ?_, ?_, ?_, ?_, ?_, ?_, ?_⟩
+      · refine ⟨by simp [effMap, hv, hlt], by simp [hv, hj3], ?_, hi.pert, hi.ivl⟩
+        intro _; simp [effMap, chanIdx, hv, hjon]
+      · simp [effMap, hv]
+      · simp [currentInterval]
+      · simp
+      · simp [chanIdx, effMap, hv, hsucc]
+      · simp [currentChannel, chanIdx, hv]
+      · intro _; rfl
+      · intro hle; simp only [chanIdx, hv, if_true] at hle; exact absurd (hwrap hle) hjf
   · have hv' : s.cfg.varMap = false := by simpa using hv
     simp only [hv', Bool.false_eq_true, if_false] at hidx
-    have ht := all_table s.idx (by omega) hidx.1
-    obtain ⟨h37, h39, hon', hsucc, hup, hwrap⟩ := ht
+    obtain ⟨h37, h39, hon', hsucc, hup, hwrap⟩ := all_table s.idx (by omega) hidx.1
     unfold nextChannelAndDelay nextAdvEvent firstSelected
     simp only [hv', Bool.false_eq_true, if_false, Option.bind_some, Option.map_some]
-    by_cases hjf : nextIdxAll s.idx = 37
-    · refine ⟨_, _, by simp only [hjf, beq_self_eq_true, Bool.not_true, Bool.false_eq_true, if_false], ?_, ?_, ?_, ?_, ?_, ?_, ?_, ?_⟩
-      · refine ⟨by simp [effMap, hv'], by simp [hv', hjf], ?_, ?_, hi.ivl⟩
-        · intro _; simp [effMap, chanIdx, hv', hjf]; decide
+    generalize hj : nextIdxAll s.idx = j at *
+    by_cases hjf : j = 37
+    · subst hjf
+      simp only [beq_self_eq_true, Bool.not_true, Bool.false_eq_true, if_false]
+      refine ⟨_, _, rfl, ?_, ?_, ?_, ?_, ?_, ?_, ?_, ?_⟩
+      · refine ⟨by simp [effMap, hv'], by simp [hv'], ?_, ?_, hi.ivl⟩
+        · intro _; simp only [effMap, chanIdx, hv', Bool.false_eq_true, if_false]; exact hon'
         · show (s.pert + 7) % 11 ≤ 10; omega
       · simp [effMap, hv']
       · simp [currentInterval]
       · simp
-      · simp only [chanIdx, effMap, hv', Bool.false_eq_true, if_false]; rw [← hjf]; exact hsucc
-      · simp only [currentChannel, chanIdx, hv', Bool.false_eq_true, if_false]; omega
+      · simp only [chanIdx, effMap, hv', Bool.false_eq_true, if_false]; exact hsucc
+      · simp only [currentChannel, chanIdx, hv', Bool.false_eq_true, if_false]
       · intro hlt'; simp only [chanIdx, hv', Bool.false_eq_true, if_false] at hlt'
-        exact absurd hjf (hup (by omega))
+        exact absurd rfl (hup (by omega))
       · intro _; exact ⟨(s.pert + 7) % 11, by omega, by simp [currentInterval]⟩
-    · have hne : (nextIdxAll s.idx == 37) = false := by simp [hjf]
-      refine ⟨_, _, by simp only [hne, Bool.not_false, if_true], ?_, ?_, ?_, ?_, ?_, ?_, ?_, ?_⟩
+    · have hne : (j == 37) = false := by simp [hjf]
+      simp only [hne, Bool.not_false, if_true]
+      refine ⟨_, _, rfl, ?_, ?_, ?_, ?_, ?_, ?_, ?_, ?_⟩
       · refine ⟨by simp [effMap, hv'], by simp [hv', h37, h39], ?_, hi.pert, hi.ivl⟩
         intro _; simp only [effMap, chanIdx, hv', Bool.false_eq_true, if_false]; exact hon'
       · simp [effMap, hv']
